@@ -16,13 +16,14 @@ CONSTANTS N, NS, NP, NW,            \* objects, traced / untraced / weak slots p
           MAXRC, MaxRoots, MaxWRoots,
           MaxOps, MaxFaults, MaxTraceK,
           BUG_STALE_TC, BUG_NESTED_FLAGS, \* pre-fix behaviour (regression configs only)
-          OPS                       \* subset of Env operations enabled in this configuration
+          OPS,                      \* subset of Env operations enabled in this configuration
+          AUTOF, AUTO0,             \* auto-collect feature compiled in / enabled at the start of the run
+          SZ                        \* size in bytes of an object box in the build that replays the behaviours
 
 VARIABLES st, mon, hist
 vars == <<st, mon, hist>>
 
 Objs == 1..N
-SZ == 144
 MSZ == 24
 
 \* ------------------------------------------------------------------ helpers
@@ -52,9 +53,10 @@ Init0 ==
    roots |-> [o \in Objs |-> 0], wroots |-> [o \in Objs |-> 0], moved |-> [o \in Objs |-> FALSE],
    pc |-> <<>>, pcSize |-> 0, buf |-> TRUE, rl |-> <<>>, nrl |-> <<>>, q |-> <<>>,
    col |-> FALSE, fing |-> FALSE, drp |-> FALSE, exec |-> 0, bytes |-> 0,
+   cfg |-> [auto |-> AUTO0, pn |-> 1, pd |-> 10, bt |-> 0, thr |-> 100],
    stack |-> <<>>, pan |-> "", ft |-> <<>>, ntr |-> 0, nops |-> 0, nfaults |-> 0, ev |-> <<>>]
 
-ResetEv == [e |-> "reset", fin |-> FIN, weak |-> WEAK, dbg |-> DBG, auto |-> FALSE, ns |-> NS, np |-> NP, nw |-> NW, run |-> 0]
+ResetEv == [e |-> "reset", fin |-> FIN, weak |-> WEAK, dbg |-> DBG, auto |-> AUTO0, sz |-> SZ, ns |-> NS, np |-> NP, nw |-> NW, run |-> 0]
 
 \* ------------------------------------------------------------------ primitives (cc.rs)
 Unbuffer(s, o) == IF s.mark[o] = "P" /\ s.buf THEN [s EXCEPT !.mark[o] = "N", !.pc = RemoveSeq(@, o), !.pcSize = @ - 1] ELSE s
@@ -92,11 +94,27 @@ Obs(s) ==
       ad |-> [i \in DOMAIN held |-> <<held[i], held[i], 40, 0, TRUE, TRUE>>],
       rw |-> [i \in DOMAIN rch |-> <<rch[i], s.box[rch[i]] = "live" \/ s.moved[rch[i]]>>],
       walk |-> s.pc, wsz |-> IF s.buf THEN s.pcSize ELSE -1, lk |-> TRUE]
+     @@ (IF AUTOF THEN [thr |-> s.cfg.thr] ELSE <<>>)
      @@ (IF WEAK THEN [wk |-> [i \in DOMAIN wheld |-> <<wheld[i], WeakStrong(s, wheld[i]), s.meta[wheld[i]].wc>>]] ELSE <<>>)
 
 RetEv(s, op, extra) == [e |-> "ret", op |-> op, panic |-> ""] @@ extra @@ [res |-> ""] @@ Obs(s)
 RetPanicEv(s, op) == [e |-> "ret", op |-> op, panic |-> s.pan, res |-> ""] @@ Obs(s)
 CallEv(s, c) == c @@ [e |-> "call", x |-> s.exec]
+\* creating operations also log what the trigger policy looks at
+CallEvPol(s, c) == CallEv(s, c) @@ [by |-> s.bytes, bf |-> IF s.buf THEN s.pcSize ELSE -1] @@ (IF AUTOF THEN [thr |-> s.cfg.thr] ELSE <<>>)
+
+\* ------------------------------------------------------------------ automatic collection policy (config.rs)
+ShouldTrigger(s) == AUTOF /\ ~s.col /\ s.buf /\ s.cfg.auto /\ (s.bytes > s.cfg.thr \/ (s.cfg.bt # 0 /\ s.pcSize > s.cfg.bt))
+RECURSIVE ThrUp(_, _)
+ThrUp(thr, bytes) == LET t == 2 * thr IN IF bytes < t THEN t ELSE ThrUp(t, bytes)
+RECURSIVE ThrDown(_, _, _, _)
+ThrDown(thr, bytes, pn, pd) ==
+  IF bytes * pd <= thr * pn THEN
+    LET nt == thr \div 2 IN
+    IF bytes >= nt THEN thr ELSE IF nt <= 100 THEN 100 ELSE ThrDown(nt, bytes, pn, pd)
+  ELSE thr
+AdjustThr(thr, bytes, pn, pd) == IF bytes >= thr THEN ThrUp(thr, bytes) ELSE IF pn = 0 THEN thr ELSE ThrDown(thr, bytes, pn, pd)
+Adjust(s) == IF AUTOF THEN [s EXCEPT !.cfg.thr = AdjustThr(@, s.bytes, s.cfg.pn, s.cfg.pd)] ELSE s
 
 \* ------------------------------------------------------------------ Cc::drop (cc.rs:249), one pointer to o
 CbEv(s, kind, o) == [e |-> "cb", cb |-> kind, o |-> o, it |-> IsTracing(s), ok |-> TRUE]
@@ -278,15 +296,47 @@ CollectUnwind(s) ==
   IN EndCollect(s1)
 
 \* ------------------------------------------------------------------ operation frames
-\* x of an op frame = the call event
+\* x of an op frame = the call event (plus adj: run the threshold adjustment when the operation completes)
+ClearPlan(s) == [s EXCEPT !.ft = IF Len(s.stack) = 0 THEN <<>> ELSE @, !.ntr = IF Len(s.stack) = 0 THEN 0 ELSE @]
+AllocNew(s, o) ==
+  Emit([s EXCEPT !.box[o] = "live", !.rc[o] = 1, !.tc[o] = 0, !.mark[o] = "N", !.fz[o] = FIN /\ s.fing, !.hm[o] = FALSE, !.dr[o] = FALSE,
+                 !.roots[o] = 1, !.bytes = @ + SZ],
+       [e |-> "alloc", k |-> "box", o |-> o, blk |-> o, size |-> SZ, align |-> 8])
+
 OpDone(s) ==
   LET f == STop(s)  c == f.x  op == c.op
-      s2 == SPop(s)
-  IN [Emit(s2, RetEv(s2, op, <<>>)) EXCEPT !.ft = IF Len(s2.stack) = 0 THEN <<>> ELSE @, !.ntr = IF Len(s2.stack) = 0 THEN 0 ELSE @]
+      adj(t) == IF "adj" \in DOMAIN c /\ c.adj THEN Adjust(t) ELSE t
+  IN
+  IF op = "new" THEN
+    LET s2 == AllocNew(adj(SPop(s)), c.o) IN ClearPlan(Emit(s2, RetEv(s2, op, <<>>)))
+  ELSE IF op = "newcyc" /\ f.ph = "pre" THEN
+    \* allocate the box (value uninitialised, strong count forced to 0) and the side record, then run the closure
+    LET o == c.o
+        s1 == adj(s)
+        s2 == Emit([s1 EXCEPT !.box[o] = "uninit", !.rc[o] = 0, !.tc[o] = 0, !.mark[o] = "N", !.fz[o] = FIN /\ s1.fing, !.hm[o] = TRUE, !.dr[o] = FALSE,
+                              !.meta[o] = [alive |-> TRUE, wc |-> 1, acc |-> TRUE], !.bytes = @ + SZ],
+                   [e |-> "alloc", k |-> "box", o |-> o, blk |-> o, size |-> SZ, align |-> 8])
+        s3 == Emit(s2, [e |-> "alloc", k |-> "meta", o |-> o, blk |-> N + o, size |-> MSZ, align |-> 8])
+    IN PushCb(SetTop(s3, [f EXCEPT !.ph = "closure", !.x = [c EXCEPT !.adj = FALSE]]), "closure", o)
+  ELSE IF op = "newcyc" THEN
+    LET o == c.o
+        s1 == SPop(s)
+        s2 == [s1 EXCEPT !.box[o] = "live", !.rc[o] = 1, !.roots[o] = 1]
+        s3 == IF f.i = 1 THEN [s2 EXCEPT !.fw[o][1] = o, !.meta[o].wc = @ + 1] ELSE s2
+        s4 == DropWeakPtr(s3, o)     \* the Weak handed to the closure goes away
+    IN ClearPlan(Emit(s4, RetEv(s4, op, <<>>)))
+  ELSE
+    LET s2 == adj(SPop(s)) IN ClearPlan(Emit(s2, RetEv(s2, op, <<>>)))
 
 OpUnwind(s) ==
   LET f == STop(s)  c == f.x  op == c.op
-      s2 == SPop(s)
+      s1 == IF op = "newcyc" /\ f.ph = "closure"
+            THEN DropWeakPtr(FreeBox(DropMeta(s, c.o), c.o), c.o)     \* PanicGuard, then the provided Weak
+            ELSE IF op = "new"
+            \* the value handed to Cc::new is dropped by the unwinding (it never reached an allocation)
+            THEN Emit(Emit(s, CbEv(s, "drop", c.o)), [e |-> "cbx", cb |-> "drop", o |-> c.o, panic |-> FALSE])
+            ELSE s
+      s2 == SPop(s1)
   IN IF Len(s2.stack) = 0
      THEN [Emit(s2, RetPanicEv(s2, op)) EXCEPT !.pan = "", !.ft = <<>>, !.ntr = 0]    \* caught by the program at top level
      ELSE Emit(s2, [e |-> "ret", op |-> op, res |-> "", panic |-> "unwind", x |-> s2.exec])
@@ -314,13 +364,14 @@ Run(s) == IF NeedsEnv(s) THEN s ELSE Run(Step1(s))
 \* ------------------------------------------------------------------ environment
 CbTop(s) == IF s.stack = <<>> THEN "" ELSE STop(s).x          \* kind of the running callback ("" at top level)
 SelfOf(s) == IF s.stack = <<>> THEN 0 ELSE STop(s).o
-OpenSelves(s) == {s.stack[i].o : i \in {j \in DOMAIN s.stack : s.stack[j].k = "cb"}}
+OpenSelves(s) == {s.stack[i].o : i \in {j \in DOMAIN s.stack : s.stack[j].k = "cb" /\ s.stack[j].x # "closure"}}
 \* objects whose fields the program can name: through a handle, a moved-out value, or `self` of a running callback
 Acc(s) == {o \in Objs : s.roots[o] > 0 \/ s.moved[o]} \cup OpenSelves(s)
 Full(s) == CbTop(s) \in {"", "finalize", "closure", "action"}   \* full vocabulary (not in Drop impls)
 FreeId(s, o) == s.box[o] = "free" /\ ~s.meta[o].alive /\ s.roots[o] = 0 /\ s.wroots[o] = 0 /\ ~s.moved[o]
                 /\ \A a \in Objs : o \notin Rng(s.fs[a]) \cup Rng(s.fp[a]) \cup Rng(s.fw[a])
                 /\ o \notin {s.stack[i].o : i \in DOMAIN s.stack}
+                /\ o \notin {s.stack[i].x.o : i \in {j \in DOMAIN s.stack : s.stack[j].k = "op" /\ s.stack[j].x.op \in {"new", "newcyc"}}}
 Budget(s) == s.nops < MaxOps
 Begin(s) == [s EXCEPT !.ev = <<>>, !.nops = @ + 1]
 SlotsOf(s, a, k) == IF k = "p" THEN s.fp[a] ELSE s.fs[a]
@@ -328,12 +379,31 @@ Kinds == (IF NS > 0 THEN {"s"} ELSE {}) \cup (IF NP > 0 THEN {"p"} ELSE {})
 SetSlot(s, a, k, i, v) == IF k = "p" THEN [s EXCEPT !.fp[a][i] = v] ELSE [s EXCEPT !.fs[a][i] = v]
 
 \* atomic operations: call + effect + ret in one step
-EnvNew(s, o) ==
-  LET s1 == Emit(s, CallEv(s, [op |-> "new", o |-> o]))
-      s2 == Emit([s1 EXCEPT !.box[o] = "live", !.rc[o] = 1, !.tc[o] = 0, !.mark[o] = "N", !.fz[o] = FIN /\ s.fing, !.hm[o] = FALSE, !.dr[o] = FALSE,
-                            !.roots[o] = 1, !.bytes = @ + SZ],
-                 [e |-> "alloc", k |-> "box", o |-> o, blk |-> o, size |-> SZ, align |-> 8])
-  IN Emit(s2, RetEv(s2, "new", <<>>))
+EnvNew(s, o, ft) ==
+  LET trig == ShouldTrigger(s)
+      s1 == Emit([s EXCEPT !.ft = IF s.stack = <<>> /\ trig THEN ft ELSE @], CallEvPol(s, [op |-> "new", o |-> o]))
+      s2 == SPush(s1, [Frame("op", 0, "pre") EXCEPT !.x = [op |-> "new", o |-> o, adj |-> trig]])
+  IN IF trig THEN StartCollect(s2) ELSE s2
+
+EnvNewCyc(s, o, ft) ==
+  LET trig == ShouldTrigger(s)
+      s1 == Emit([s EXCEPT !.ft = IF s.stack = <<>> /\ trig THEN ft ELSE @], CallEvPol(s, [op |-> "newcyc", o |-> o]))
+      s2 == SPush(s1, [Frame("op", 0, "pre") EXCEPT !.x = [op |-> "newcyc", o |-> o, adj |-> trig]])
+  IN IF trig THEN StartCollect(s2) ELSE s2
+
+EnvSaveW(s, o) ==   \* inside the new_cyclic closure: keep a clone of the provided Weak
+  LET s1 == Emit(s, CallEv(s, [op |-> "savew", o |-> o]))
+      s2 == [s1 EXCEPT !.meta[o].wc = @ + 1, !.wroots[o] = @ + 1]
+  IN Emit(s2, RetEv(s2, "savew", <<>>))
+EnvWProbe(s, o) ==  \* inside the closure: the provided Weak must be dead
+  LET s1 == Emit(s, CallEv(s, [op |-> "wprobe", o |-> o]))
+  IN Emit(s1, RetEv(s1, "wprobe", [res |-> "none", wsc |-> WeakStrong(s1, o)]))
+
+EnvSetCfg(s, c) ==
+  LET s1 == Emit(s, CallEv(s, [op |-> "setcfg", auto |-> c.auto, pn |-> c.pn, pd |-> c.pd, bt |-> c.bt]))
+      s2 == [s1 EXCEPT !.cfg = [auto |-> c.auto, pn |-> c.pn, pd |-> c.pd, bt |-> c.bt, thr |-> @.thr]]
+  IN Emit(s2, RetEv(s2, "setcfg", <<>>))
+CfgChoices == {[auto |-> a, pn |-> p[1], pd |-> p[2], bt |-> b] : a \in BOOLEAN, p \in {<<1, 10>>, <<0, 1>>, <<1, 1>>}, b \in {0, 1}}
 
 EnvClone(s, o) ==
   LET s1 == Emit(s, CallEv(s, [op |-> "clone", o |-> o]))
@@ -432,13 +502,18 @@ EnvDropVal(s, o) ==
 
 EnvCollect(s, ft) ==
   LET s1 == Emit([s EXCEPT !.ft = IF s.stack = <<>> THEN ft ELSE @], CallEv(s, [op |-> "collect"]))
-      s2 == SPush(s1, [Frame("op", 0, "run") EXCEPT !.x = [op |-> "collect"]])
+      s2 == SPush(s1, [Frame("op", 0, "run") EXCEPT !.x = [op |-> "collect", adj |-> ~s.col]])
   IN IF s.col \/ ~s.buf THEN s2 ELSE StartCollect(s2)
 
 FaultPlans(s) == IF s.nfaults < MaxFaults /\ s.stack = <<>> THEN {<<k, j>> : k \in 0..MaxTraceK, j \in 0..NS} ELSE {}
 
 \* callback decisions
 EnvReturn(s) == LET f == STop(s) IN SPop(Emit(s, [e |-> "cbx", cb |-> f.x, o |-> f.o, panic |-> FALSE]))
+\* the new_cyclic closure returns; sw: it stored a clone of the provided Weak into the new value
+EnvReturnClosure(s, sw) ==
+  LET f == STop(s)
+      s1 == SPop(Emit(s, [e |-> "cbx", cb |-> "closure", o |-> f.o, panic |-> FALSE, sw |-> sw]))
+  IN SetTop(s1, [STop(s1) EXCEPT !.i = IF sw THEN 1 ELSE 0])
 EnvPanic(s) == LET f == STop(s) IN [SPop(Emit(s, [e |-> "cbx", cb |-> f.x, o |-> f.o, panic |-> TRUE])) EXCEPT !.pan = "inj", !.nfaults = @ + 1]
 
 Do(s2) == /\ st' = Run(s2)
@@ -446,7 +521,17 @@ Do(s2) == /\ st' = Run(s2)
           /\ hist' = hist \o st'.ev
 
 ANew == /\ "new" \in OPS /\ Budget(st) /\ Full(st)
-        /\ \E o \in Objs : FreeId(st, o) /\ (\A o2 \in Objs : FreeId(st, o2) => o <= o2) /\ Do(EnvNew(Begin(st), o))
+        /\ \E o \in Objs : /\ FreeId(st, o) /\ (\A o2 \in Objs : FreeId(st, o2) => o <= o2)
+                            /\ \/ Do(EnvNew(Begin(st), o, <<>>))
+                               \/ \E ft \in FaultPlans(st) : ShouldTrigger(st) /\ st.pc # <<>> /\ Do(EnvNew(Begin(st), o, ft))
+ANewCyc == /\ "newcyc" \in OPS /\ WEAK /\ Budget(st) /\ Full(st)
+           /\ \E o \in Objs : /\ FreeId(st, o) /\ (\A o2 \in Objs : FreeId(st, o2) => o <= o2)
+                               /\ \/ Do(EnvNewCyc(Begin(st), o, <<>>))
+                                  \/ \E ft \in FaultPlans(st) : ShouldTrigger(st) /\ st.pc # <<>> /\ Do(EnvNewCyc(Begin(st), o, ft))
+ASaveW == /\ "newcyc" \in OPS /\ Budget(st) /\ CbTop(st) = "closure" /\ st.wroots[SelfOf(st)] < MaxWRoots /\ Do(EnvSaveW(Begin(st), SelfOf(st)))
+AWProbe == /\ "newcyc" \in OPS /\ Budget(st) /\ CbTop(st) = "closure" /\ Do(EnvWProbe(Begin(st), SelfOf(st)))
+ASetCfg == /\ "setcfg" \in OPS /\ AUTOF /\ Budget(st) /\ Full(st)
+           /\ \E c \in CfgChoices : [auto |-> st.cfg.auto, pn |-> st.cfg.pn, pd |-> st.cfg.pd, bt |-> st.cfg.bt] # c /\ Do(EnvSetCfg(Begin(st), c))
 AClone == /\ "clone" \in OPS /\ Budget(st) /\ Full(st)
           /\ \E o \in Objs : st.roots[o] > 0 /\ st.roots[o] < MaxRoots /\ st.rc[o] < MAXRC /\ Do(EnvClone(Begin(st), o))
 ACloneF == /\ "clonef" \in OPS /\ Budget(st) /\ Full(st)
@@ -495,10 +580,12 @@ ASetW == /\ "setw" \in OPS /\ WEAK /\ Budget(st) /\ Full(st)
          /\ \E a \in Acc(st), o \in Objs : \E i \in 1..NW : st.fw[a][i] = 0 /\ st.wroots[o] > 0 /\ Do(EnvSetW(Begin(st), a, i, o))
 AClearW == /\ "clearw" \in OPS /\ WEAK /\ Budget(st) /\ Full(st)
            /\ \E a \in Acc(st) : \E i \in 1..NW : st.fw[a][i] # 0 /\ Do(EnvClearW(Begin(st), a, i))
-AReturn == /\ st.stack # <<>> /\ Do(EnvReturn([st EXCEPT !.ev = <<>>]))
+AReturn == /\ st.stack # <<>> /\ CbTop(st) # "closure" /\ Do(EnvReturn([st EXCEPT !.ev = <<>>]))
+AReturnClosure == /\ st.stack # <<>> /\ CbTop(st) = "closure"
+                  /\ \E sw \in (IF NW > 0 THEN BOOLEAN ELSE {FALSE}) : Do(EnvReturnClosure([st EXCEPT !.ev = <<>>], sw))
 APanic == /\ st.stack # <<>> /\ st.nfaults < MaxFaults /\ ~Unwinding(st) /\ Do(EnvPanic([st EXCEPT !.ev = <<>>]))
 
-Next == APut \/ ATake \/ ADowngrade \/ AUpgrade \/ AUpgradeF \/ ACloneW \/ ADropW \/ ASetW \/ AClearW \/ ANew \/ AClone \/ ACloneF \/ ADrop \/ ASet \/ AClear \/ AMark \/ ACollect \/ AUnwrap \/ ADropVal \/ AFAgain \/ AReturn \/ APanic
+Next == ANewCyc \/ ASaveW \/ AWProbe \/ ASetCfg \/ AReturnClosure \/ APut \/ ATake \/ ADowngrade \/ AUpgrade \/ AUpgradeF \/ ACloneW \/ ADropW \/ ASetW \/ AClearW \/ ANew \/ AClone \/ ACloneF \/ ADrop \/ ASet \/ AClear \/ AMark \/ ACollect \/ AUnwrap \/ ADropVal \/ AFAgain \/ AReturn \/ APanic
 
 Init == /\ st = Init0
         /\ mon = Mon(MonInit, ResetEv)
